@@ -988,7 +988,7 @@ func run(c *vm.Ctx) {
 		nBiomes++
 	}
 	_ = reflect.TypeOf
-	if c.Shard == 0 {
+	if c.Shard == 0 && c.Mode != "race" { // the exhaustive registry pass is sequential: nothing for the race detector to watch
 		checkRegistry(c)
 	}
 	r := c.Rand("chunks")
